@@ -246,3 +246,81 @@ Example code_viol_example :
   code_viol wit_array true [-(2); 5; 1 # 2] = Some [-(2) * 1; 4 * 1; 0 * 1] /\
   code_viol wit_array true [1; 1; 1] = Some [0 * 1; 0 * 1; 0 * 1].
 Proof. split; vm_compute; reflexivity. Qed.
+
+(* ------------------------------------------------------------------ whole constraints, whole residual *)
+
+Lemma code_viol_zero_iff_sat : forall k ds cv v,
+  con_wf k (length cv) -> code_viol k ds cv = Some v ->
+  (Forall (fun r => r == 0) v <-> con_sat k cv).
+Proof.
+  intros k ds cv v [lo [hi [s [Hlo [Hhi [Hs [Hord [Hnz Heq]]]]]]]] Hv.
+  unfold con_sat. destruct (c_equals k) as [e |] eqn:Ee.
+  - destruct Heq as [el Hel].
+    destruct (code_viol_eq_correct k ds cv e el s Ee Hel Hs) as [v' [Hv' [Lv Hn]]].
+    rewrite Hv in Hv'. inversion Hv'; subst v'. clear Hv'.
+    assert (Fnz : forall j, (j < length cv)%nat -> ~ factor ds s j == 0).
+    { intros j Hj. unfold factor. destruct ds; [apply Hnz; exact Hj | intro H; discriminate H]. }
+    rewrite Forall_nth. split.
+    + intros H el' Hel' j Hj. rewrite Hel in Hel'. inversion Hel'; subst el'.
+      assert (Z : nth j v 0 == 0) by (apply H; lia).
+      rewrite (Hn j Hj) in Z. unfold viol_eq in Z.
+      destruct (Qmult_integral _ _ Z) as [Z1 | Z1]; [exfalso; apply (Fnz j Hj); exact Z1 | lra].
+    + intros H j d Hj. rewrite (nth_indep v d 0) by exact Hj. rewrite Hn by lia.
+      specialize (H el Hel j ltac:(lia)). unfold viol_eq. rewrite H. ring.
+  - rewrite (code_viol_zero_iff_feasible k ds cv lo hi s v Ee Hlo Hhi Hs Hord Hnz Hv). split.
+    + intros H lo' hi' Hlo' Hhi' j Hj. rewrite Hlo in Hlo'. rewrite Hhi in Hhi'.
+      inversion Hlo'; inversion Hhi'; subst. apply H. exact Hj.
+    + intros H j Hj. apply (H lo hi Hlo Hhi j Hj).
+Qed.
+
+Lemma code_viol_defined : forall k ds cv, con_wf k (length cv) -> exists v, code_viol k ds cv = Some v.
+Proof.
+  intros k ds cv [lo [hi [s [Hlo [Hhi [Hs [Hord [Hnz Heq]]]]]]]].
+  destruct (c_equals k) as [e |] eqn:Ee.
+  - destruct Heq as [el Hel].
+    destruct (code_viol_eq_correct k ds cv e el s Ee Hel Hs) as [v [Hv _]]. exists v. exact Hv.
+  - destruct (code_viol_ineq_correct k ds cv lo hi s Ee Hlo Hhi Hs Hord) as [v [Hv _]]. exists v. exact Hv.
+Qed.
+
+(* the residual that find_feasible minimises (Driver._compute_con_viol: linear constraints first, then
+   the nonlinear ones) is the zero vector exactly when every element of every constraint satisfies its
+   equality value or bounds — for any number of constraints of any sizes, any partition into linear
+   and nonlinear, with or without driver scaling *)
+Lemma residual_zero_iff_all_satisfied : forall cs ds x v,
+  (forall s, In s cs -> con_wf (con_of s) (length (con_value s x))) ->
+  con_viol_vector cs ds x = Some v ->
+  (Forall (fun r => r == 0) v <-> forall s, In s cs -> con_sat (con_of s) (con_value s x)).
+Proof.
+  intros cs ds x v Hwf Hv. rewrite (con_viol_vector_zero_iff cs ds x v Hv). split.
+  - intros H s Hs. destruct (code_viol_defined (con_of s) ds (con_value s x) (Hwf s Hs)) as [w Hw].
+    apply (code_viol_zero_iff_sat _ ds _ w (Hwf s Hs) Hw). apply (H s w Hs Hw).
+  - intros H s w Hs Hw. apply (code_viol_zero_iff_sat _ ds _ w (Hwf s Hs) Hw). apply H. exact Hs.
+Qed.
+
+(* ... and it is defined (no NumPy error) whenever the metadata are well formed *)
+Lemma concat_opt_defined : forall l, (forall o, In o l -> exists w, o = Some w) -> exists v, concat_opt l = Some v.
+Proof.
+  induction l as [| o l IH]; intros H; [exists []; reflexivity |].
+  destruct (H o (or_introl eq_refl)) as [w ->].
+  destruct IH as [v Hv]; [intros o' Ho'; apply H; right; exact Ho' |].
+  exists (w ++ v). cbn. rewrite Hv. reflexivity.
+Qed.
+
+Lemma residual_defined : forall cs ds x,
+  (forall s, In s cs -> con_wf (con_of s) (length (con_value s x))) ->
+  exists v, con_viol_vector cs ds x = Some v.
+Proof.
+  intros cs ds x Hwf. unfold con_viol_vector. apply concat_opt_defined.
+  intros o Ho. apply in_app_or in Ho.
+  destruct Ho as [Ho | Ho]; apply in_map_iff in Ho; destruct Ho as [s [<- Hin]];
+    apply filter_In in Hin; destruct Hin as [Hin _]; apply code_viol_defined; apply Hwf; exact Hin.
+Qed.
+
+(* non-vacuity: a linear two-sided array constraint and a nonlinear equality, residual zero at a
+   feasible point and non-zero at an infeasible one *)
+Example residual_example :
+  let cs := [mkcspec 0 2 1 None 1 (Some (BA [0; 0])) (Some (BA [1; 2])) None (ScRef (Some (BS 1)) (Some (BS 3))) true;
+             mkcspec 2 1 2 None 1 None None (Some (BS 4)) ScNone false] in
+  con_viol_vector cs true [1; 2; 2] = Some [0 * (/ (3 + - (1))); 0 * (/ (3 + - (1))); (2 * 2 * 1 - 4) * 1] /\
+  con_viol_vector cs true [3; 2; 1] = Some [(3 * 1 - 1) * (/ (3 + - (1))); 0 * (/ (3 + - (1))); (2 * 1 * 1 - 4) * 1].
+Proof. split; vm_compute; reflexivity. Qed.
